@@ -411,8 +411,7 @@ func (vm *VM) callNative(fn *NativeFunction, numVariadic int8, shift StackShift,
 	if asGoroutine {
 
 		if simEnabled && simGoNative(vm, fn.value, args, variadic) {
-			vm.fp = fp
-			return
+			goto goroutineStarted
 		}
 
 		// Start a goroutine.
@@ -441,6 +440,7 @@ func (vm *VM) callNative(fn *NativeFunction, numVariadic int8, shift StackShift,
 		}
 
 	}
+goroutineStarted:
 
 	vm.fp = fp // Restore the frame pointer.
 
